@@ -1391,7 +1391,14 @@ impl<R: std::io::Read> Decoder<R> {
             .blocks
             .streaminfo()
             .total_samples
-            .map(|total| total.get() - self.current_sample)
+            // a final block longer than STREAMINFO allows leaves us past the total
+            .map(|total| {
+                total
+                    .get()
+                    .checked_sub(self.current_sample)
+                    .ok_or(Error::TooManySamples)
+            })
+            .transpose()?
         {
             Some(0) => return Ok(None),
             Some(remaining) => FrameHeader::read(crc16_reader.by_ref(), self.blocks.streaminfo())
